@@ -128,8 +128,9 @@ def aggregate_forms(ctx, fn, adt):
     return out
 
 
-def check_aggregates(ctx, rep, rid, table):
-    """table: {fn: {adt: {field: expected form}}} — the (first) aggregate of adt built in fn must have these field forms"""
+def check_aggregates(ctx, rep, rid, table, skip_absent=False):
+    """table: {fn: {adt: {field: expected form}}} — the (first) aggregate of adt built in fn must have these field forms
+    (skip_absent: a field the type no longer has is not an obligation)"""
     for fn, per in table.items():
         if not ctx.has(fn):
             rep.anchor_lost(rid, fn)
@@ -141,6 +142,8 @@ def check_aggregates(ctx, rep, rid, table):
                 continue
             fields, where = got[0]
             for f, form in want.items():
+                if skip_absent and f not in fields:
+                    continue
                 ok = _match(fields.get(f, '<absent>'), [form]) is not None
                 rep.ob(rid, fn, '%s.%s = %s' % (adt.split('::')[-1], f, form), ok, where, None if ok else
                        '%s.%s is built from `%s` (confirmed: `%s`)' % (adt.split('::')[-1], f, fields.get(f), form))
